@@ -115,6 +115,12 @@ CHECKS = {
         "text": "union / least_upper_bound / pseudo_join / widen must contain every operand, intersection every common member; eval(n), min/max (signed and unsigned), cardinality, solution(v) for every v, is_empty/is_integer/is_top must agree exactly with the member set computed from (bits, stride, lb, ub). Enumerated over all canonical intervals of small width, generated with sampled members at 8-64 bits.",
         "note": "Off-lattice upper bounds (writable by a caller, meaning undocumented) are outside the oracle; widen is only checked for containment.",
     },
+    "C24": {
+        "level": "exploration",
+        "technique": "property-based testing: generated operation trees over SI-annotated variables, ALL assignments inside the intervals enumerated (numpy) as the oracle for BackendVSA's abstract value and SolverVSA's answers",
+        "text": "Generated BV/Bool trees (arithmetic, bitwise, shifts by constants and variables, extract/concat/extensions, comparisons, And/Or/Not, nested If, union/intersection/widen at the root) over 1-3 variables of width 2-6 annotated with intervals drawn from all canonical forms; every concrete value over all admissible assignments must be in the member set of backends.vsa.convert(expr) (truth values for Booleans); SolverVSA (with generated constraints) must not exclude a feasible value in eval (when it returns fewer than n), min, max, solution, nor claim unsat when a model exists. Declining (BackendError / ClaripyFrontendError) is allowed.",
+        "note": "Division only by non-zero constants; set operations only at the root or under one binary operation; widths <= 6 so that all assignments can be enumerated.",
+    },
     "C25": {
         "level": "exploration",
         "technique": "property-based testing + bounded enumeration: generated comparison constraints over the shapes the balancer handles, ALL assignments enumerated (numpy) as the oracle for the returned satisfiability flag and bounds",
